@@ -707,6 +707,8 @@ impl Node {
                 return Err(e.into());
             }
             tracing::trace!("Message sent to rex");
+            #[cfg(edp_rs_verif)]
+            edp_client::verif::sched_point("rpc::request_written").await;
         } else {
             tracing::error!("No connection found for node: {}", remote_node);
             self.pending_rpcs.remove(&pid_str);
